@@ -45,6 +45,91 @@ CATEGORIES = [
     ('frame_buffer.FrameBuffer._update_header_buffer', 'ProtocolError',
      'PROTOCOL_ERROR'),
 ]
+# Which h2 exception classes each function of the receive path raises itself
+# (the class carries the error code of the GOAWAY / RST_STREAM that answers
+# it).  Confirmed by reading the pinned tree; a function that is not there
+# (renamed beyond recognition, merged) is skipped, helpers the pinned tree
+# does not know have been inlined into these before this is read.
+RAISES = {
+    'connection.H2Connection._begin_new_stream':
+        {'StreamIDTooLowError', 'ProtocolError'},
+    'connection.H2Connection._get_stream_by_id':
+        {'NoSuchStreamError', 'StreamClosedError'},
+    'connection.H2Connection._receive_frame': {'StreamClosedError'},
+    'connection.H2Connection._receive_headers_frame': {'TooManyStreamsError'},
+    'connection.H2Connection._receive_priority_frame': {'ProtocolError'},
+    'connection.H2Connection._receive_push_promise_frame': {'ProtocolError'},
+    'connection.H2ConnectionStateMachine.process_input': {'ProtocolError'},
+    'connection._decode_headers': {'DenialOfServiceError', 'ProtocolError'},
+    'frame_buffer.FrameBuffer.__next__':
+        {'ProtocolError', 'FrameDataMissingError'},
+    'frame_buffer.FrameBuffer._update_header_buffer': {'ProtocolError'},
+    'frame_buffer.FrameBuffer._validate_frame_length': {'FrameTooLargeError'},
+    'frame_buffer.FrameBuffer.add_data': {'ProtocolError'},
+    'stream.H2Stream._initialize_content_length': {'ProtocolError'},
+    'stream.H2Stream._track_content_length': {'InvalidBodyLengthError'},
+    'stream.H2Stream.receive_headers': {'ProtocolError'},
+    'stream.H2StreamStateMachine.data_received': {'ProtocolError'},
+    'stream.H2StreamStateMachine.process_input': {'ProtocolError'},
+    'stream.H2StreamStateMachine.recv_informational_response':
+        {'ProtocolError'},
+    'stream.H2StreamStateMachine.recv_on_closed_stream':
+        {'StreamClosedError'},
+    'stream.H2StreamStateMachine.recv_push_on_closed_stream':
+        {'StreamClosedError', 'ProtocolError'},
+    'stream.H2StreamStateMachine.recv_push_promise': {'ProtocolError'},
+    'stream._decode_headers': {'ProtocolError'},
+    'utilities._assert_header_in_set': {'ProtocolError'},
+    'utilities._check_path_header': {'ProtocolError'},
+    'utilities._check_pseudo_header_field_acceptability': {'ProtocolError'},
+    'utilities._reject_connection_header': {'ProtocolError'},
+    'utilities._reject_empty_header_names': {'ProtocolError'},
+    'utilities._reject_pseudo_header_fields': {'ProtocolError'},
+    'utilities._reject_surrounding_whitespace': {'ProtocolError'},
+    'utilities._reject_te': {'ProtocolError'},
+    'utilities._reject_uppercase_header_fields': {'ProtocolError'},
+    'utilities._validate_host_authority_header': {'ProtocolError'},
+    'utilities.guard_increment_window': {'FlowControlError'},
+    'windows.WindowManager.window_consumed': {'FlowControlError'},
+    'windows.WindowManager.window_opened': {'FlowControlError'},
+}
+
+
+def check_raise_classes(ctx, eng, only=None):
+    """Every detecting function raises the class (= the error code) it is
+    documented to: the set of h2 exception classes named in its own raise
+    statements is the one of the table."""
+    m = eng.m
+    n = 0
+    for q, exp in sorted(RAISES.items()):
+        if only is not None and not only(q):
+            continue
+        fi = m.funcs.get(q)
+        if fi is None:
+            continue
+        got = set()
+        for nd in ast.walk(fi.node):
+            if isinstance(nd, ast.Raise) and nd.exc is not None:
+                e = nd.exc
+                nm = None
+                if isinstance(e, ast.Call) and isinstance(e.func, ast.Name):
+                    nm = e.func.id
+                elif isinstance(e, ast.Name):
+                    nm = e.id
+                if nm and (m.class_by_name(nm) is not None and
+                           m.exc_is_subclass(nm, 'H2Error')):
+                    got.add(nm)
+        n += 1
+        # a function that no longer refuses anything is the business of the
+        # clauses about that refusal; here only the class of what is raised
+        ctx.ob('TAB.raise-class', q, 'classes of its own refusals',
+               got <= exp, 'raises %s, documented %s' % (
+                   sorted(got), sorted(exp)), node=fi.node)
+    ctx.record('raise_class_functions', n)
+    if only is None:
+        ctx.floor('raise_class_functions', 25)
+
+
 # translations: (function, caught class, raised class, category)
 TRANSLATIONS = [
     ('frame_buffer.FrameBuffer.__next__', 'InvalidFrameError',
@@ -238,6 +323,7 @@ def run(ctx, eng):
            'HTTP_1_1_REQUIRED': 13}
     ctx.ob('TAB.code', 'errors.ErrorCodes', 'RFC 7540 section 7 values',
            dict(ec) == rfc, 'found %s' % dict(ec))
+    check_raise_classes(ctx, eng)
     for q, cname, cat in CATEGORIES:
         f3 = m.func(q)
         raised = set()
